@@ -71,7 +71,7 @@ func runOne(ctx context.Context, sp solverSpec, q string, ms int) SolveResult {
 }
 
 // Solve: a short first attempt with z3-new only, then a race of all three.
-func Solve(qPlain, qALL string, timeoutMs int) SolveResult {
+func Solve(qPlain, qALL, qAbsMul string, timeoutMs int) SolveResult {
 	var tried []string
 	t0 := time.Now()
 	first := timeoutMs / 8
@@ -81,16 +81,45 @@ func Solve(qPlain, qALL string, timeoutMs int) SolveResult {
 	if first < 500 {
 		first = 500
 	}
+	var am chan SolveResult
+	if qAbsMul != "" {
+		am = make(chan SolveResult, 1)
+		go func() {
+			r := runOne(context.Background(), solvers[0], qAbsMul, first)
+			r.Solver = "z3-new(absmul)"
+			am <- r
+		}()
+	}
 	r := runOne(context.Background(), solvers[0], qPlain, first)
 	tried = append(tried, fmt.Sprintf("%s:%s:%.2fs", r.Solver, r.Status, r.Time))
 	if r.Status == "unsat" || r.Status == "sat" {
 		r.Tried = tried
 		return r
 	}
+	if am != nil {
+		ra := <-am
+		tried = append(tried, fmt.Sprintf("%s:%s:%.2fs", ra.Solver, ra.Status, ra.Time))
+		if ra.Status == "unsat" {
+			ra.Tried = tried
+			return ra
+		}
+	}
 	ctx, cancel := context.WithCancel(context.Background())
 	defer cancel()
-	ch := make(chan SolveResult, len(solvers))
+	ch := make(chan SolveResult, len(solvers)+1)
 	var wg sync.WaitGroup
+	if qAbsMul != "" {
+		wg.Add(1)
+		go func() {
+			defer wg.Done()
+			r := runOne(ctx, solvers[0], qAbsMul, timeoutMs)
+			r.Solver = "z3-new(absmul)"
+			if r.Status == "sat" {
+				r.Status = "unknown" // a model of the weakened query proves nothing
+			}
+			ch <- r
+		}()
+	}
 	for _, sp := range solvers {
 		sp := sp
 		wg.Add(1)
